@@ -26,6 +26,11 @@ type Cfg struct {
 	// Counting: a breaker that never trips (huge threshold) over a short window of small buckets, ticks of a few
 	// milliseconds: completions race with bucket rollovers; at quiescence none of them may be missing from the window
 	Counting bool `json:"counting,omitempty"`
+	// Later: a rule-check slot behind the breaker's blocks some requests (op.M==1): a probe blocked there
+	// returns the breaker to Open from its exit hook. Straggler: the prelude leaves a request that was admitted
+	// while the breaker was still closed in flight (held by the last caller).
+	Later     bool `json:"later,omitempty"`
+	Straggler bool `json:"straggler,omitempty"`
 }
 
 type P struct{}
@@ -37,12 +42,12 @@ func (P) Engine() string { return "E2" }
 
 func (P) Describe() harness.Description {
 	return harness.Description{
-		MustHit: []string{"window_counts_checked_after_concurrent_rollover", "half_open_timing_checked", "probe_exclusivity_checked", "open_period_checked", "transition_overlaps_other_caller"},
+		MustHit: []string{"blocked_probe_handed_the_breaker_back", "straggler_from_the_closed_period_in_flight", "window_counts_checked_after_concurrent_rollover", "half_open_timing_checked", "probe_exclusivity_checked", "open_period_checked", "transition_overlaps_other_caller"},
 		Level:   "exploration",
 		Rule: "case = (one breaker of any strategy with small minimum amount and retry timeout, sequential prelude leaving it fresh / near trip / open just before its deadline / half-open with a held probe; 2-3 callers with 1-4 Entry / complete operations each; tick plan around the retry timeout). The scheduler interleaves at every atomic access of TryPass, OnRequestComplete and the transition helpers. " +
 			"History oracles stamped with event sequence numbers: (a) the multiset of listener events is a legal path from the prelude state to the final state (each transition once, correct previous state); (b) every Open->HalfOpen happens >= retry timeout after the invocation of the earliest call that could have opened the breaker for that open period; (c) with no probe number, after a passage to half-open no other request invoked afterwards is admitted and returns before the call that emits the next transition is invoked; (d) no request other than the probe is admitted wholly inside a certainly-open period. " +
 			"non-trivial = at least one transition happened while another caller was inside an operation; distinct = hash(config, ops, schedule)",
-		Assumptions: []string{"one breaker on the resource (no probe roll-back by a later breaker in this check; that path is covered sequentially by C03)", "facts are used as premises only when certain from invoke/return order; overlapping cases are skipped, never guessed", "the final state is read through the overlay-only accessor circuitbreaker.VerifBreakersOf"},
+		Assumptions: []string{"one breaker on the resource; the probe roll-back path is driven by a scripted rule-check slot behind the breaker slot (35 % of the cases)", "a probe blocked behind the breaker returns it to the open period it interrupted (retry timeout not renewed): a request probing right after that is not a violation", "facts are used as premises only when certain from invoke/return order; overlapping cases are skipped, never guessed", "the final state is read through the overlay-only accessor circuitbreaker.VerifBreakersOf"},
 		Real:        []string{"api.Entry/TraceError/Exit", "core/circuitbreaker (slot, stat slot, breakers, listeners)", "core/stat/base.LeapArray"},
 		Stub:        []string{"util.Clock (virtual clock)", "goroutine scheduling (cooperative seeded scheduler)", "sync.Pool (SimPool)"},
 	}
@@ -77,15 +82,35 @@ func (P) Gen(rng *sim.Rng, tier string) *harness.Case {
 	cfg.Rule = r
 	cfg.Delta = []uint64{0, 1, 2, r.RetryMs / 2}[rng.Intn(4)]
 	k := rng.Range(2, 3)
+	duel := false
+	if !cfg.Counting && rng.Chance(0.35) {
+		cfg.Later = true
+		cfg.Straggler = cfg.Prelude >= 2 && rng.Chance(0.6)
+		if rng.Chance(0.4) {
+			// a blocked probe that is slow to leave, a straggler from the closed period that fails meanwhile,
+			// and later requests: open at (or just before) its deadline
+			duel = true
+			cfg.Prelude, cfg.Straggler = 2, true
+			cfg.Delta = uint64(rng.Intn(2))
+			cfg.Rule.ProbeNum, r.ProbeNum = 0, 0
+		}
+	}
 	callers := make([][]harness.Op, k)
 	for i := range callers {
 		held := 0
 		if cfg.Prelude == 3 && i == 0 {
 			held = 1
 		}
+		if cfg.Straggler && i == k-1 {
+			held++
+		}
 		for j, m := 0, rng.Range(1, 4); j < m; j++ {
 			switch rng.Weighted([]int{35, 35, 30}) {
 			case 0:
+				if cfg.Later && rng.Chance(0.4) {
+					callers[i] = append(callers[i], harness.Op{K: "req", M: 1}) // blocked by the later check if the breaker lets it through
+					break
+				}
 				callers[i] = append(callers[i], harness.Op{K: "req"})
 				held++
 			case 1:
@@ -99,7 +124,27 @@ func (P) Gen(rng *sim.Rng, tier string) *harness.Case {
 			}
 		}
 	}
+	shaped := false
+	if duel {
+		shaped = true
+		sIdx := 0
+		if cfg.Prelude == 3 && k == 1 {
+			sIdx = 1
+		}
+		callers[0] = []harness.Op{{K: "req", M: 1}}
+		last := []harness.Op{{K: "done", E: sIdx, F: true}}
+		for j, m := 0, rng.Range(1, 3); j < m; j++ {
+			last = append(last, harness.Op{K: "req"})
+		}
+		callers[k-1] = last
+		if k == 3 {
+			callers[1] = []harness.Op{{K: "req"}, {K: "req"}}[:rng.Range(1, 2)]
+		}
+	}
 	var ticks []uint64
+	if shaped {
+		ticks = append(ticks, cfg.Delta*1e6)
+	}
 	for i, n := 0, rng.Range(0, 5); i < n; i++ {
 		ticks = append(ticks, []uint64{1, 1, 2, r.RetryMs - 1, r.RetryMs, r.RetryMs + 1, cfg.Delta}[rng.Intn(7)]*1e6)
 	}
@@ -113,6 +158,11 @@ func (P) Gen(rng *sim.Rng, tier string) *harness.Case {
 	c := &harness.Case{Cfg: harness.MustJSON(cfg), Callers: callers}
 	c.Sched = harness.GenSched(rng, ticks, 400*k)
 	c.Sched.MaxSteps = 60000
+	if shaped && rng.Chance(0.7) {
+		c.Sched.Policy, c.Sched.PCTDepth, c.Sched.StayProb = sim.PolPCT, rng.Range(2, 4), 0
+		c.Sched.EstSteps = 150 * k
+		c.Sched.TickProb = []float64{0.05, 0.1, 0.3}[rng.Intn(3)]
+	}
 	c.Pool = harness.GenPool(rng)
 	return c
 }
@@ -132,8 +182,20 @@ type call struct {
 	tInv     uint64
 	tRet     uint64
 	bad      bool // complete: with an error
-	admitted bool
+	admitted bool // the breaker let it through (it was admitted, or blocked by the check behind the breaker)
+	later    bool // blocked by the check behind the breaker
 	done     bool
+}
+
+// laterCheck is a rule-check slot behind the circuit breaker slot; it blocks the requests its caller marked.
+type laterCheck struct{ block []bool }
+
+func (l *laterCheck) Order() uint32 { return 7000 }
+func (l *laterCheck) Check(ctx *base.EntryContext) *base.TokenResult {
+	if t := sim.CurTask(); t >= 0 && t < len(l.block) && l.block[t] {
+		return base.NewTokenResultBlocked(base.BlockTypeUnknown)
+	}
+	return nil
 }
 
 type listener struct {
@@ -201,6 +263,18 @@ func (P) Exec(c *harness.Case) *harness.Outcome {
 		return o
 	}
 	defer cb.ClearStateChangeListeners()
+	var chain *base.SlotChain
+	later := &laterCheck{block: make([]bool, k)}
+	if cfg.Later {
+		chain = sentinel.BuildDefaultSlotChain()
+		chain.AddRuleCheckSlot(later)
+	}
+	enter := func() (*base.SentinelEntry, *base.BlockError) {
+		if chain != nil {
+			return sentinel.Entry(res, sentinel.WithSlotChain(chain))
+		}
+		return sentinel.Entry(res)
+	}
 	bizErr := errors.New("biz")
 	complete := func(e *base.SentinelEntry, fail bool) {
 		if fail {
@@ -211,10 +285,13 @@ func (P) Exec(c *harness.Case) *harness.Outcome {
 	// ---- sequential prelude
 	startState := model.Closed
 	var preArm uint64
-	var heldProbe *base.SentinelEntry
+	var heldProbe, straggler *base.SentinelEntry
 	trip := func() bool {
+		if cfg.Straggler {
+			straggler, _ = enter()
+		}
 		for i := 0; i < 8; i++ {
-			e, _ := sentinel.Entry(res)
+			e, _ := enter()
 			if e == nil {
 				return true
 			}
@@ -229,7 +306,7 @@ func (P) Exec(c *harness.Case) *harness.Outcome {
 		switch cfg.Prelude {
 		case 1:
 			if r.MinReq > 1 {
-				if e, _ := sentinel.Entry(res); e != nil {
+				if e, _ := enter(); e != nil {
 					complete(e, false)
 				}
 			}
@@ -247,7 +324,7 @@ func (P) Exec(c *harness.Case) *harness.Outcome {
 				clk.AdvanceMs(d)
 			} else {
 				clk.AdvanceMs(r.RetryMs)
-				heldProbe, _ = sentinel.Entry(res)
+				heldProbe, _ = enter()
 				if heldProbe != nil {
 					startState = model.HalfOpen
 				}
@@ -266,6 +343,10 @@ func (P) Exec(c *harness.Case) *harness.Outcome {
 		if task == 0 && heldProbe != nil {
 			held = append(held, heldProbe)
 		}
+		if task == k-1 && straggler != nil {
+			held = append(held, straggler)
+			o.Probe("straggler_from_the_closed_period_in_flight")
+		}
 		do := func(kind string, f func(cl *call)) {
 			cl := &call{task: task, kind: kind, inv: sim.NextSeq(), tInv: clk.NowMs()}
 			lis.cur[task] = cl
@@ -281,8 +362,12 @@ func (P) Exec(c *harness.Case) *harness.Outcome {
 			case "req", "rd":
 				var e *base.SentinelEntry
 				do("entry", func(cl *call) {
-					e, _ = sentinel.Entry(res)
-					cl.admitted = e != nil
+					var be *base.BlockError
+					later.block[task] = op.M == 1
+					e, be = enter()
+					later.block[task] = false
+					cl.later = be != nil && be.BlockType() == base.BlockTypeUnknown
+					cl.admitted = e != nil || cl.later
 				})
 				if e != nil {
 					if op.K == "rd" {
@@ -388,6 +473,43 @@ func (P) Exec(c *harness.Case) *harness.Outcome {
 			return o
 		}
 	}
+	// Possible instant of each transition: Open->HalfOpen is reported with no yield
+	// point after its CAS (exact); the others are reported after further atomic
+	// accesses, so their CAS lies between the invocation of the emitting call and the report.
+	lo := func(e *levent) uint64 {
+		if e.from == model.Open || e.call == nil || e.call.kind == "entry" {
+			return e.seq // (the exit hook of a blocked probe reports right after its CAS as well)
+		}
+		return e.call.inv
+	}
+	// (e) a probe that is blocked behind the breaker hands back ITS OWN passage to half-open, nobody else's:
+	// HalfOpen->Open reported from inside an Entry call comes from that exit hook, and the transition before it
+	// must be the Open->HalfOpen of the same call
+	for i, e := range evs {
+		if !(e.from == model.HalfOpen && e.to == model.Open && e.call != nil && e.call.kind == "entry") {
+			continue
+		}
+		o.Probe("blocked_probe_handed_the_breaker_back")
+		var own *levent
+		for _, h := range evs[:i] {
+			if h.call == e.call && h.from == model.Open && h.to == model.HalfOpen {
+				own = h
+			}
+		}
+		bad := own == nil
+		if own != nil {
+			// both instants are exact; another transition that certainly happened between them ended the passage
+			for _, n := range evs {
+				if n != own && n != e && lo(n) > own.seq && n.seq < e.seq {
+					bad = true
+				}
+			}
+		}
+		if bad {
+			o.Fail("C12.blocked-probe-ended-another-passage", int(e.seq), "a probe that was blocked behind the breaker reported HalfOpen->Open (seq %d) from its exit hook, but the passage to half-open it ended is not its own: transitions %v (its own passage had ended already; the probe of the current one is still in flight)", e.seq, fmtEvents(evs))
+			return o
+		}
+	}
 	// (b) retry timeout respected
 	var prevH *levent
 	for _, h := range evs {
@@ -396,8 +518,17 @@ func (P) Exec(c *harness.Case) *harness.Outcome {
 		}
 		have := false
 		var tArm uint64
+		rolledBack := false
 		for _, a := range evs {
 			if a.to != model.Open || a.call == nil {
+				continue
+			}
+			if a.call.kind == "entry" {
+				// a blocked probe handed the breaker back from its exit hook: the open period that the probe
+				// interrupted goes on, its retry timeout had elapsed already and is not renewed
+				if a.seq < h.seq && (prevH == nil || a.seq > prevH.seq) {
+					rolledBack = true
+				}
 				continue
 			}
 			// the arming call a.call could have opened the breaker for this open period
@@ -413,6 +544,12 @@ func (P) Exec(c *harness.Case) *harness.Outcome {
 				tArm = preArm
 			}
 			have = true
+		}
+		if rolledBack {
+			// exactly one transition to Open lies between two passages to half-open, and here it is the hand-back
+			o.Probe("probed_again_after_a_blocked_probe")
+			prevH = h
+			continue
 		}
 		if !have {
 			o.Fail("C12.half-open-without-open", int(h.seq), "Open->HalfOpen at t=%d without a preceding opening transition", h.t)
@@ -438,15 +575,6 @@ func (P) Exec(c *harness.Case) *harness.Outcome {
 		}
 		o.Probe("half_open_timing_checked")
 		prevH = h
-	}
-	// Possible instant of each transition: Open->HalfOpen is reported with no yield
-	// point after its CAS (exact); the others are reported after further atomic
-	// accesses, so their CAS lies between the invocation of the emitting call and the report.
-	lo := func(e *levent) uint64 {
-		if e.from == model.Open || e.call == nil {
-			return e.seq
-		}
-		return e.call.inv
 	}
 	// (c) probe exclusivity (no probe number configured)
 	if r.ProbeNum == 0 {
